@@ -35,6 +35,9 @@ type Case struct {
 	StallAt int `json:"stall_at_message"`
 	StallMs int `json:"stall_ms"`
 	OutCap  int `json:"out_cap"`
+	// Second: after the first stream (which may end in a truncated frame) the SAME handler is given this
+	// second stream on fresh channels (the source reconnected); its frames must all be recognised too.
+	Second *gen.Stream `json:"second_stream_same_handler,omitempty"`
 }
 
 // Compare checks delivered messages against an expected list.
@@ -102,10 +105,21 @@ func check(c Case, o *stats.Obs) error {
 		}
 		o.Class("producer-pause")
 	}
-	res := drive.Run(drive.NewHandler(slog.LevelInfo), input, opt)
+	h := drive.NewHandler(slog.LevelInfo)
+	res := drive.Run(h, input, opt)
 	if key, err := Compare(res, want, input); err != nil {
 		o.Key = key
 		return err
+	}
+	if c.Second != nil {
+		in2, want2 := c.Second.Bytes(), gen.Expected(*c.Second)
+		CrossCheck(want2, in2)
+		res2 := drive.Run(h, in2, drive.Options{InCap: c.InCap, OutCap: 1})
+		if key, err := Compare(res2, want2, in2); err != nil {
+			o.Key = "second-stream/" + key
+			return fmt.Errorf("second stream through the same handler (first stream %x): %v", input, err)
+		}
+		o.Class("handler-reused-for-second-stream")
 	}
 	frames, long, d3inside, oneByteJunk, tail := 0, false, false, false, false
 	for i, g := range c.Stream.Segs {
@@ -145,6 +159,13 @@ func gen1(t *rapid.T) Case {
 		maxLen = 1023
 	}
 	c := Case{Stream: gen.CleanStream(t, 10, maxLen, true), InCap: rapid.SampledFrom([]int{0, 16, 4096}).Draw(t, "inCap")}
+	if rapid.IntRange(0, 3).Draw(t, "second") == 2 {
+		s2 := gen.CleanStream(t, 6, 60, true)
+		if len(s2.Bytes()) > 100000 {
+			s2 = gen.Stream{Segs: []gen.Segment{{Kind: "valid", Data: gen.ValidFrame(t, 60)}}}
+		}
+		c.Second = &s2
+	}
 	// Rarely (each costs real time): a pause of the source in the middle of a segment.
 	if rapid.IntRange(0, 299).Draw(t, "pause") == 173 { // rapid favours small values, so compare with a middle one
 		off := 0
